@@ -15,6 +15,8 @@ func init() {
 			c.Floor("S.spec", 2)
 			ruleJSONValueSpec(c)
 			ruleCountLoop(c)
+			ruleJSONWalkerOut(c)
+			ruleClearJSON(c)
 			ruleTightGuards(c, decodeBound(c.P), func(n string) bool { return strings.Contains(n, "JSON") })
 			c.Floor("X.tightguard", 8)
 			ruleRejects(c, decodeBound(c.P), func(n string) bool { return strings.Contains(n, "JSON") })
